@@ -151,15 +151,27 @@ func (z *canonizer) group(name string) string {
 }
 
 var belongs = map[string]func(name string) *regexp.Regexp{
-	"gp":        func(n string) *regexp.Regexp { return regexp.MustCompile(`^group-policy ` + regexp.QuoteMeta(n) + ` `) },
-	"tg":        func(n string) *regexp.Regexp { return regexp.MustCompile(`^tunnel-group ` + regexp.QuoteMeta(n) + ` `) },
-	"cryptomap": func(n string) *regexp.Regexp { return regexp.MustCompile(`^crypto map ` + regexp.QuoteMeta(n) + ` \d+ `) },
-	"dynmap":    func(n string) *regexp.Regexp { return regexp.MustCompile(`^crypto dynamic-map ` + regexp.QuoteMeta(n) + ` \d+ `) },
-	"ts1":       func(n string) *regexp.Regexp { return regexp.MustCompile(`^crypto ipsec ikev1 transform-set ` + regexp.QuoteMeta(n) + ` `) },
-	"prop2":     func(n string) *regexp.Regexp { return regexp.MustCompile(`^crypto ipsec ikev2 ipsec-proposal ` + regexp.QuoteMeta(n) + `$`) },
-	"pool":      func(n string) *regexp.Regexp { return regexp.MustCompile(`^ip local pool ` + regexp.QuoteMeta(n) + ` `) },
-	"certmap":   func(n string) *regexp.Regexp { return regexp.MustCompile(`^crypto ca certificate map ` + regexp.QuoteMeta(n) + ` \d+$`) },
-	"user":      func(n string) *regexp.Regexp { return regexp.MustCompile(`^username ` + regexp.QuoteMeta(n) + ` `) },
+	"gp": func(n string) *regexp.Regexp { return regexp.MustCompile(`^group-policy ` + regexp.QuoteMeta(n) + ` `) },
+	"tg": func(n string) *regexp.Regexp { return regexp.MustCompile(`^tunnel-group ` + regexp.QuoteMeta(n) + ` `) },
+	"cryptomap": func(n string) *regexp.Regexp {
+		return regexp.MustCompile(`^crypto map ` + regexp.QuoteMeta(n) + ` \d+ `)
+	},
+	"dynmap": func(n string) *regexp.Regexp {
+		return regexp.MustCompile(`^crypto dynamic-map ` + regexp.QuoteMeta(n) + ` \d+ `)
+	},
+	"ts1": func(n string) *regexp.Regexp {
+		return regexp.MustCompile(`^crypto ipsec ikev1 transform-set ` + regexp.QuoteMeta(n) + ` `)
+	},
+	"prop2": func(n string) *regexp.Regexp {
+		return regexp.MustCompile(`^crypto ipsec ikev2 ipsec-proposal ` + regexp.QuoteMeta(n) + `$`)
+	},
+	"pool": func(n string) *regexp.Regexp {
+		return regexp.MustCompile(`^ip local pool ` + regexp.QuoteMeta(n) + ` `)
+	},
+	"certmap": func(n string) *regexp.Regexp {
+		return regexp.MustCompile(`^crypto ca certificate map ` + regexp.QuoteMeta(n) + ` \d+$`)
+	},
+	"user": func(n string) *regexp.Regexp { return regexp.MustCompile(`^username ` + regexp.QuoteMeta(n) + ` `) },
 }
 
 var seqRE = regexp.MustCompile(`^(crypto (?:dynamic-)?map \S+|crypto ca certificate map \S+) \d+`)
